@@ -58,6 +58,8 @@ SRC_TREES = {
     "nested": {"a": "F1", "d": {"b": "F2", "e": {}}, "z": "E"},
     "links": {"a": "F1", "l": ("link", "a"), "dl": ("link", "nowhere"), "al": ("link", "/s/a"), "d": {"up": ("link", "../a")}},
     "deep": {"d": {"d": {"d": {"a": "F3"}}}},
+    # link texts that are not in normal form: "identical target text" means byte for byte (trailing slash, "//", "/./", "x/..")
+    "linktext": {"a": "F1", "e": {}, "t1": ("link", "e/"), "t2": ("link", ".//a"), "t3": ("link", "e/./../a"), "t4": ("link", "./nowhere/")},
     "empty": {},
     "hidden": {".h": "F4", ".d": {"x": "F5"}},
 }
